@@ -74,6 +74,8 @@ OPS += [
     ("e05", "", "", "{ topProducts { upc name reviews { body author { id username realName } } } }"),
 ]
 MINI = {"n01", "n02", "n03", "n04", "p01", "e01"}
+# operations whose single failures are refined by Gen_FetchExec!variant (status codes, error-array shapes, odd extensions)
+VARIANTS = {"n01", "n02", "n04", "p01", "e01", "q03", "q07", "m07"}
 ERRMODE = {"p01": "pass", "e01": "rewrite", "p03": "pass", "e03": "rewrite", "e05": "rewrite"}
 
 
@@ -230,7 +232,7 @@ class PlanInfo:
     def driver_case(self, c):
         """case in index space -> driver input (real fetch ids)"""
         return {"id": c["id"], "op": c["op"], "faults": {str(self.real[int(k)]): v for k, v in c["faults"].items()},
-                "order": [self.real[f] for f in c["order"]], "then": c.get("then", "")}
+                "order": [self.real[f] for f in c["order"]], "then": c.get("then", ""), "variant": c.get("variant", 0)}
 
     def items_at(self, f):
         """positions (response paths with list indices) of the objects fetch f's representations are rendered from, in
@@ -255,6 +257,7 @@ class PlanInfo:
 
     def shape_line(self):
         return {"op": self.id, "n": self.n, "tree": self.tree, "partner": 1 if getattr(self, "partner", None) else 0,
+                "vars": 1 if self.id in VARIANTS else 0,
                 "entity": [1 if (self.r0.get(f["id"]) or {}).get("is_entity") else 0 for f in self.fetches]}
 
     def sig(self, faults, res=None):
@@ -590,16 +593,16 @@ def run(ctx):
         pi = plans[c["op"]]
         faults = {str(i): k for i, k in enumerate(c["fault"]) if k != "ok"}
         cases.append({"op": c["op"], "faults": faults, "order": [f - 1 for f in c["order"]], "nf": len(faults), "all": len(faults) == pi.n,
-                      "then": pi.partner if c.get("second") == "other" else ""})
+                      "then": pi.partner if c.get("second") == "other" else "", "variant": c.get("variant", 0)})
     small = [c for c in cases if c["nf"] <= 1 or c["all"]]
     big = [c for c in cases if not (c["nf"] <= 1 or c["all"])]
     rng.shuffle(big)
-    cap = 300 if quick else 10 ** 9
+    cap = 200 if quick else 10 ** 9
     if quick and len(small) > 1500:
         # every (operation, fault assignment) at least once, the remaining completion orders sampled
         first, rest, seen = [], [], set()
         for c in small:
-            k = (c["op"], json.dumps(c["faults"], sort_keys=True), c["then"])
+            k = (c["op"], json.dumps(c["faults"], sort_keys=True), c["then"], c["variant"])
             (rest if k in seen else first).append(c)
             seen.add(k)
         rng.shuffle(rest)
@@ -623,6 +626,13 @@ def run(ctx):
         if r["panic"]:
             pi = plans[r["op"]]
             ctx.violation("panic:%s" % pi.sig(r["case"]["faults"]), "panic while resolving under faults: %s" % r["panic"][:300],
+                          {"case": r["case"], "operation": op_dict(next(o for o in OPS if o[0] == r["op"])), "result": r})
+        elif r["arrived"] and r["err"] and not r["response"].strip():
+            # oracle-free: the gateway answered with an error instead of a response document
+            pi = plans[r["op"]]
+            ctx.violation("noresponse:%s" % pi.sig(r["case"]["faults"], r),
+                          "Execute returned an error and wrote no response at all (%s) for %s under faults %s (variant %s): the failure "
+                          "of one subgraph request took down the whole request" % (r["err"][:200], r["op"], r["case"]["faults"], r["case"].get("variant", 0)),
                           {"case": r["case"], "operation": op_dict(next(o for o in OPS if o[0] == r["op"])), "result": r})
         elif not r["arrived"] or r["unrealised"] or (r.get("repeat") and not r["repeat"]["arrived"]):
             retry.append(r)
@@ -702,7 +712,7 @@ def run(ctx):
         else:
             what = "invariant %s is false on the trace recorded from the real loader" % verdict
         op = next(o for o in OPS if o[0] == r["op"])
-        ctx.violation(key, "%s; operation %s %s, faults %s, order %s; response %s" % (what, r["op"], op[3], r["case"]["faults"], r["case"]["order"], r["response"][:400]),
+        ctx.violation(key, "%s; operation %s %s, faults %s (variant %s), order %s; response %s" % (what, r["op"], op[3], r["case"]["faults"], r["case"].get("variant", 0), r["case"]["order"], r["response"][:400]),
                       {"case": r["case"], "operation": op_dict(op),
                        "fetches": pi.fetches, "fault_free_response": pi.plan["response"], "response": r["response"],
                        "exchanges": r["exchanges"], "events": r["events"], "tlc": verdict, "failing_event": {k: v for k, v in ev.items() if k not in ("a", "x")}})
@@ -741,8 +751,9 @@ def run(ctx):
                 raise lib.Inconclusive("binding demonstration failed: %s was not rejected with %s (got %s)" % (what, want, sorted(got)))
         STUCK["n"] = stuck_before
         ctx.notes.append("binding demonstration: dropped event / fabricated representation / corrupted response value of trace %s rejected" % demo["id"])
-    distinct = {lib.sha([r["op"], r["case"]["faults"], r["case"]["order"], r["case"].get("then")]) for r in ok_results}
-    nontrivial = {lib.sha([r["op"], r["case"]["faults"], r["case"]["order"], r["case"].get("then")]) for r in ok_results if plans[r["op"]].n >= 2}
+    ck = lambda r: lib.sha([r["op"], r["case"]["faults"], r["case"]["order"], r["case"].get("then"), r["case"].get("variant", 0)])
+    distinct = {ck(r) for r in ok_results}
+    nontrivial = {ck(r) for r in ok_results if plans[r["op"]].n >= 2}
     sample = ok_results[len(ok_results) // 2] if ok_results else None
     ctx.coverage.update({
         "traces_validated_against_impl": validated,
@@ -757,6 +768,7 @@ def run(ctx):
         "generated_cases": len(cases),
         "unrealised_orders": unreal,
         "second_request_other_operation": sum(1 for r in ok_results if r["case"].get("then")),
+        "variant_cases": sum(1 for r in ok_results if r["case"].get("variant")),
         "rate_limited_cases": sum(1 for r in ok_results if "RateLimited" in r["case"]["faults"].values()),
         "error_path_cases": sum(1 for r in ok_results if ERRMODE.get(r["op"]) and any(v in ("PartialData", "ErrorsNoData") for v in r["case"]["faults"].values())),
         "invariants_on_traces": INVS,
